@@ -37,13 +37,18 @@ EXPLANATION = (
 
 
 def check(run, repo, tier):
-  w = World(repo)
-  ctx = _Ctx(w)
-  r1_flag_agreement(run, w, ctx)
-  r2_listlike(run, w, ctx)
-  r3_row_creation(run, w, ctx)
-  r4_auto_remove(run, w, ctx)
-  r5_fixpoint(run, w)
+  V = H.guarded_views
+  V(run, repo, r1_flag_agreement)
+  V(run, repo, r2_listlike)
+  V(run, repo, r3_row_creation)
+  V(run, repo, r4_auto_remove)
+  V(run, repo, r5_fixpoint)
+
+
+def _ctx_of(w):
+  if not hasattr(w, "_c12_ctx"):
+    w._c12_ctx = _Ctx(w)
+  return w._c12_ctx
 
 
 class _Ctx(object):
@@ -101,7 +106,8 @@ def _cond_value(fn, expr):
 
 # --------------------------------------------------------------------------------------- R1
 
-def r1_flag_agreement(run, w, ctx):
+def r1_flag_agreement(run, w):
+  ctx = _ctx_of(w)
   R1 = run.rule("C12-R1", "writer and reader of the summary helper column agree on the simple "
                 "flag, the helper column id and the source table", floor=5)
   wr = ctx.writer
@@ -288,7 +294,8 @@ def _usertype_of_string(w, k):
 PENDING_DEFECT_TYPES = ()   # the Attachments defect was repaired in /repo (fix: b4af27e)
 
 
-def r2_listlike(run, w, ctx):
+def r2_listlike(run, w):
+  ctx = _ctx_of(w)
   R2 = run.rule("C12-R2", "list-like classes agree between flag and expansion; "
                 "summary_groupby_col_type flattens exactly their type names; empty-list "
                 "sentinels are the flattened types' defaults", floor=5)
@@ -484,7 +491,8 @@ def _conj_has(t, pred):
   return any(pred(p) for p in parts)
 
 
-def r3_row_creation(run, w, ctx):
+def r3_row_creation(run, w):
+  ctx = _ctx_of(w)
   R3 = run.rule("C12-R3", "summary rows are created only after a look-up with the same key found "
                 "nothing; list cells de-duplicated; one key component per group-by column; "
                 "creation guarded by is_triggered_by_table_action", floor=7)
@@ -634,7 +642,8 @@ def r3_row_creation(run, w, ctx):
 
 # --------------------------------------------------------------------------------------- R4
 
-def r4_auto_remove(run, w, ctx):
+def r4_auto_remove(run, w):
+  ctx = _ctx_of(w)
   R4 = run.rule("C12-R4", "every group-returning path of getSummarySourceGroup records "
                 "setAutoRemove(rec, not group); setAutoRemove/apply_auto_removes remove exactly "
                 "the marked records", floor=5)
